@@ -120,9 +120,12 @@ VF_MAIN
 
   /* ---------------- the stage envelope ENV(kind): what the kernel needs from the planner ---------------- */
 #if VF_KERN == 0           /* half-band: cr.c:367-372: pre_post = 4n, pre = 2n */
-  VF_ASSUME(in_pre == 2 * KN && in_post == 2 * KN);
+  VF_ASSUME(in_pre >= 2 * KN - 1 && in_pre <= 2 * KN + 1 && in_post >= 2 * KN - 1 && in_post <= 2 * KN + 1);      /* weakest: the taps on both sides are covered (today: 2n / 2n) */
+#ifdef VF_SIMD_MODELS
+  VF_ASSUME(in_pre >= 2 * KN);       /* the SSE kernel loads 4 samples at input - 2j - 8: one more sample of history than the scalar kernel */
+#endif
 #elif VF_KERN == 3         /* cubic: cr.c:390-396: pre = 1, pre_post = max(3, step.integer) */
-  VF_ASSUME(in_pre == 1 && in_post >= 2 && in_post <= 7);
+  VF_ASSUME(in_pre >= 1 && in_pre <= 2 && in_post >= 2 && in_post <= 8);
 #else                      /* poly-phase: cr.c:446-449: pre = 0, pre_post = n - 1 */
   VF_ASSUME(in_pre == 0 && in_post == KN - 1);
 #endif
@@ -159,7 +162,7 @@ VF_MAIN
   A.s.out_in_ratio = 2.000001;
 #endif
 #if VF_KERN == 3
-  VF_ASSUME((int)in_post + 1 == max(3, (int)(in_step >> 32)));      /* cr.c:394 pre_post = max(3, step.integer) */
+  VF_ASSUME((int)(in_pre + in_post) >= (int)(in_step >> 32));      /* weakest: the retained context covers one whole step (today: pre_post = max(3, step.integer)) */
 #else
   VF_ASSUME((int)(in_step >> 32) <= pre_post);                       /* ENV: the retained context covers one step beyond the input */
 #endif
